@@ -10,6 +10,11 @@ import (
 // zzSections builds a piece of 1..maxSec sections with symbolic lengths
 // (each <= maxLen) and symbolic padding flags.
 func zzSections(maxSec int, maxLen uint32) (filesection.Piece, uint32) {
+	return ZZSections(maxSec, maxLen)
+}
+
+// ZZSections is zzSections for harnesses of other packages.
+func ZZSections(maxSec int, maxLen uint32) (filesection.Piece, uint32) {
 	nsec := vrt.Choice("nsec", maxSec) + 1
 	var secs filesection.Piece
 	var total uint32
@@ -24,7 +29,10 @@ func zzSections(maxSec int, maxLen uint32) (filesection.Piece, uint32) {
 }
 
 // zzInNonPadding reports whether piece offset x lies in a non-padding section.
-func zzInNonPadding(secs filesection.Piece, x uint32) bool {
+func zzInNonPadding(secs filesection.Piece, x uint32) bool { return ZZInNonPadding(secs, x) }
+
+// ZZInNonPadding reports whether piece offset x lies in a non-padding section.
+func ZZInNonPadding(secs filesection.Piece, x uint32) bool {
 	var pos uint32
 	for _, s := range secs {
 		end := pos + uint32(s.Length)
